@@ -25,6 +25,18 @@ def _import_evaluate_expression():
 _EVALUATE_EXPRESSION = []
 
 
+# Helper function to evaluate a row expression - the statement count of copied evaluation options is carried back
+def _evaluate_row_expression(expr, options, eval_options, row):
+    evaluate_expression = _import_evaluate_expression()
+    if eval_options is options or options is None or 'statementCount' not in options:
+        return evaluate_expression(expr, eval_options, row)
+    eval_options['statementCount'] = options['statementCount']
+    try:
+        return evaluate_expression(expr, eval_options, row)
+    finally:
+        options['statementCount'] = eval_options['statementCount']
+
+
 def validate_data(data, csv=False):
     """
     Determine data field types and parse/validate field values
@@ -157,8 +169,6 @@ def join_data(left_data, right_data, join_expr, right_expr=None, is_left_join=Fa
     :rtype: list[dict]
     """
 
-    evaluate_expression = _import_evaluate_expression()
-
     # Compute the map of row field name to joined row field name
     left_names = {}
     right_names_raw = {}
@@ -198,7 +208,7 @@ def join_data(left_data, right_data, join_expr, right_expr=None, is_left_join=Fa
     # Bucket the right rows by the right expression value
     right_category_rows = {}
     for right_row in right_data:
-        category_key = value_json(evaluate_expression(right_expression, eval_options, right_row))
+        category_key = value_json(_evaluate_row_expression(right_expression, options, eval_options, right_row))
         if category_key not in right_category_rows:
             right_category_rows[category_key] = []
         right_category_rows[category_key].append(right_row)
@@ -206,7 +216,7 @@ def join_data(left_data, right_data, join_expr, right_expr=None, is_left_join=Fa
     # Join the left with the right
     data = []
     for left_row in left_data:
-        category_key = value_json(evaluate_expression(left_expression, eval_options, left_row))
+        category_key = value_json(_evaluate_row_expression(left_expression, options, eval_options, left_row))
         if category_key in right_category_rows:
             for right_row in right_category_rows[category_key]:
                 join_row = dict(left_row)
@@ -237,8 +247,6 @@ def add_calculated_field(data, field_name, expr, variables=None, options=None):
     :rtype: list[dict]
     """
 
-    evaluate_expression = _import_evaluate_expression()
-
     # Parse the calculation expression
     calc_expr = parse_expression(expr)
 
@@ -253,7 +261,7 @@ def add_calculated_field(data, field_name, expr, variables=None, options=None):
 
     # Compute the calculated field for each row
     for row in data:
-        row[field_name] = evaluate_expression(calc_expr, eval_options, row)
+        row[field_name] = _evaluate_row_expression(calc_expr, options, eval_options, row)
 
     return data
 
@@ -275,7 +283,6 @@ def filter_data(data, expr, variables=None, options=None):
     """
 
     result = []
-    evaluate_expression = _import_evaluate_expression()
 
     # Parse the filter expression
     filter_expr = parse_expression(expr)
@@ -291,7 +298,7 @@ def filter_data(data, expr, variables=None, options=None):
 
     # Filter the data
     for row in data:
-        if value_boolean(evaluate_expression(filter_expr, eval_options, row)):
+        if value_boolean(_evaluate_row_expression(filter_expr, options, eval_options, row)):
             result.append(row)
 
     return result
